@@ -92,6 +92,9 @@ def family():
         out.append([simple(views=[(k1, 0)]), simple(views=[(k2, 0)])])
     for k1, k2 in [("r", "or"), ("r", "om"), ("m", "r"), ("or", "m")]:
         out.append([simple(views=[(k1, 2), ("id", None)]), simple(views=[("id", None)], entry=[(k2, 2)])])
+    # the same component viewed immutably through the views *and* the entry views (view::Merge `Both`)
+    for k1, k2 in [("or", "or"), ("r", "or"), ("or", "r"), ("r", "r")]:
+        out.append([simple(views=[(k1, 0)], entry=[(k2, 0)]), simple(views=[("r", 0)])])
     # different components: must share a stage
     out.append([simple(views=[("m", 0)]), simple(views=[("m", 2)]), simple(views=[("m", 3)])])
     # resources
@@ -108,7 +111,7 @@ def family():
                 simple(views=[("r", 0)])])
     out.append([simple(views=[("m", 0), ("r", 2)]), simple(views=[("m", 0), ("r", 3)]), simple(views=[("m", 2)])])
     out.append([simple(views=[("m", 0)]), simple(views=[("om", 0), ("m", 3)]), simple(views=[("or", 0)]), simple(views=[("r", 3)])])
-    while len(out) < 44:
+    while len(out) < 48:
         k = rnd.randint(2, 4)
         out.append([rand_task(rnd) for _ in range(k)])
     return out
